@@ -98,6 +98,74 @@ def install_guard():
 
 
 # ---------------------------------------------------------------------------------------------
+# API boundary: every array handed to a public method / function is snapshotted at the outermost call and
+# compared afterwards (covers arrays the catalogue derives from World.arr, e.g. `W.arr(..) + 1`, tuples of
+# coordinate arrays, keyword arguments)
+API_MUT = []
+_DEPTH = [0]
+
+
+def _arrays_in(args, kwargs):
+    out = []
+
+    def visit(x, tag):
+        if isinstance(x, np.ndarray) and x.size:
+            out.append((tag, x))
+        elif isinstance(x, (tuple, list)) and len(x) <= 4:
+            for j, y in enumerate(x):
+                visit(y, f"{tag}[{j}]")
+    for i, a in enumerate(args):
+        visit(a, f"arg{i}")
+    for k, v in kwargs.items():
+        visit(v, k)
+    return out
+
+
+def _boundary(name, fn):
+    import functools
+
+    @functools.wraps(fn)
+    def wrapped(*args, **kwargs):
+        if _DEPTH[0] > 0:
+            return fn(*args, **kwargs)
+        arrs = _arrays_in(args[1:] if name.startswith(("Flwdir.", "FlwdirRaster.")) else args, kwargs)
+        snaps = [(tag, a, np.array(a, copy=True)) for tag, a in arrs]
+        _DEPTH[0] += 1
+        try:
+            return fn(*args, **kwargs)
+        finally:
+            _DEPTH[0] -= 1
+            for tag, a, c in snaps:
+                same = np.array_equal(a, c) or (a.dtype.kind == "f" and np.array_equal(a, c, equal_nan=True))
+                if not same:
+                    API_MUT.append(f"{name}({tag})")
+    return wrapped
+
+
+def install_boundary():
+    import inspect
+    import pyflwdir
+    from pyflwdir.flwdir import Flwdir
+    from pyflwdir.pyflwdir import FlwdirRaster
+    for cls in (Flwdir, FlwdirRaster):
+        for nm, v in list(vars(cls).items()):
+            if nm.startswith("_") or not inspect.isfunction(v):
+                continue
+            setattr(cls, nm, _boundary(f"{cls.__name__}.{nm}", v))
+    for nm in ("from_array", "from_dem"):
+        v = getattr(pyflwdir.pyflwdir, nm)
+        w = _boundary(nm, v)
+        setattr(pyflwdir.pyflwdir, nm, w)
+        if getattr(pyflwdir, nm, None) is v:
+            setattr(pyflwdir, nm, w)
+    for m in ("dem", "gis_utils", "regions", "core_conversion"):
+        mod = __import__("pyflwdir." + m, fromlist=[m])
+        for nm, v in list(vars(mod).items()):
+            if nm.startswith("_") or not inspect.isfunction(v) or getattr(v, "__module__", "") != mod.__name__:
+                continue
+            setattr(mod, nm, _boundary(f"{m}.{nm}", v))
+
+
 MUTATORS = {"add_pits", "repair_loops", "order_cells", "set_transform"}
 
 
@@ -107,6 +175,7 @@ def run_task(t, mode):
     made = []
     if mode == "guard":
         VIOL.clear()
+        API_MUT.clear()
         orig_arr = W.arr
 
         def arr(key_or_list, dt):
@@ -135,7 +204,7 @@ def run_task(t, mode):
         out["guard"] = list(VIOL)[:5]
         mutated = [i for i, (a, c) in enumerate(made)
                    if not (np.array_equal(a, c) or (a.dtype.kind == "f" and np.array_equal(a, c, equal_nan=True)))]
-        out["inputs_mutated"] = mutated
+        out["inputs_mutated"] = mutated + sorted(set(API_MUT))
         if t["op"] not in MUTATORS and not np.array_equal(ds_before, np.array(W.flw.idxs_ds)):
             out["object_mutated"] = True
     return out
@@ -159,6 +228,7 @@ def main():
     mode = sys.argv[3]
     if mode == "guard":
         install_guard()
+        install_boundary()
     results = {}
     for t in tasks:
         try:
